@@ -2,6 +2,7 @@ package dawn
 
 import (
 	"encoding/json"
+	"errors"
 	"fmt"
 	"os"
 	"path/filepath"
@@ -117,11 +118,17 @@ func (proj *Project) loadIndex() error {
 	}
 
 	for _, flag := range index.Flags {
+		if flag == nil {
+			return errors.New("invalid index: null flag")
+		}
 		proj.flags[flag.Name] = flag
 	}
 
 	for _, summary := range index.Targets {
 		l := summary.Label
+		if l == nil || !l.IsAbs() {
+			return errors.New("invalid index: target without an absolute label")
+		}
 
 		info, err := proj.loadTargetInfo(l)
 		if err != nil {
